@@ -16,11 +16,11 @@ package filehandler
 
 //@ func New
 //@ ensures result != nil && fresh(result)
-//@ ensures[C09] result.MessageChan == messageChan && result.Config == config
+//@ ensures result.MessageChan == messageChan && result.Config == config
 
 //@ func (*Handler).Handle
-//@ requires[C07] handler != nil && reader != nil && handler.Config != nil
-//@ requires[C09] handler.MessageChan != nil && !closed(handler.MessageChan) && allocated(handler.MessageChan)
+//@ requires handler != nil && reader != nil && handler.Config != nil
+//@ requires handler.MessageChan != nil && !closed(handler.MessageChan) && allocated(handler.MessageChan)
 //@ noterm the reader stage runs until its source fails for good (end of file beyond the tolerance or another error); that the source eventually does is a hypothesis of C09/C13
 //@ let c0 = gc("rdbytes", reader)
 //@ let k0 = gc("rdcalls", reader)
